@@ -32,6 +32,10 @@ type Printer struct {
 	DocPrecedence bool
 	// VaryLits additionally varies literal notations (int base, float form, string quoting).
 	VaryLits bool
+	// VarySelLits varies the notation of literal selectors (F.M['a'] / F.M["a"], F.Arr[1] / F.Arr[0x1]): the
+	// engine identifies constants by value, so these spell the same variable. Not to be used when a
+	// Forget/Changed call names such a variable by its text.
+	VarySelLits bool
 	// AmpExcluded counts `&` positions that were parenthesised defensively.
 	AmpExcluded int
 
@@ -433,9 +437,16 @@ func (p *Printer) path(x *Path) {
 			// a selector's spelling is part of the variable's identity in the working memory
 			// (one canonical spelling per path): no redundant parentheses inside
 			p.punct("[")
-			p.frozen++
-			p.Expr(s.Index)
-			p.frozen--
+			if l, ok := s.Index.(*Lit); ok && p.VarySelLits && p.Vary && p.frozen == 0 && l.Text == "" && (l.T == TStr || (l.T == TInt && l.I >= 0)) {
+				saved := p.VaryLits
+				p.VaryLits = true
+				p.lit(l)
+				p.VaryLits = saved
+			} else {
+				p.frozen++
+				p.Expr(s.Index)
+				p.frozen--
+			}
 			p.punct("]")
 		} else {
 			p.punct(".")
